@@ -32,7 +32,8 @@ def _wrap_set(cls, orig, kind):
         if s is None or s.aborting or s.cur is None:
             return orig(self, value)
         nm = s.name_of(self, "f")
-        s.ev("fset>", nm, kind)
+        s.ev("fset>", nm, kind, s.name_of(value, "x") if isinstance(value, BaseException) else None, cls.__name__,
+             getattr(getattr(self, "_executor", None), "_name", None))
         try:
             r = orig(self, value)
         except BaseException as e:
